@@ -47,6 +47,10 @@ pub fn bloom_sparse_unions(ctx: &mut Ctx, ncases: u64) {
 }
 
 pub fn gen_c01(ctx: &mut Ctx) {
+    for w in ["bloom", "cuckoo", "qf"] {
+        ctx.case("bigtable");
+        crate::gen::structs::big_table_case(ctx, w);
+    }
     bloom_sparse_unions(ctx, 60 * ctx.tier_scale);
     for _ in 0..(12 * ctx.tier_scale) {
         ctx.case("bloom");
@@ -61,6 +65,8 @@ pub fn gen_c01(ctx: &mut Ctx) {
 }
 
 pub fn gen_c02(ctx: &mut Ctx) {
+    ctx.case("bigtable");
+    crate::gen::structs::big_table_case(ctx, "cms");
     for _ in 0..(40 * ctx.tier_scale) {
         ctx.case("cms");
         cms_history(ctx, 150);
@@ -743,6 +749,8 @@ pub fn gen_c12(ctx: &mut Ctx) {
 }
 
 pub fn gen_c13(ctx: &mut Ctx) {
+    ctx.case("bigtable");
+    crate::gen::structs::big_table_case(ctx, "qf");
     for _ in 0..(50 * ctx.tier_scale) {
         ctx.case("qf");
         qf_history(ctx, 220);
@@ -771,6 +779,8 @@ pub fn gen_c13(ctx: &mut Ctx) {
 }
 
 pub fn gen_c14(ctx: &mut Ctx) {
+    ctx.case("bigtable");
+    crate::gen::structs::big_table_case(ctx, "cuckoo");
     for _ in 0..(50 * ctx.tier_scale) {
         ctx.case("cuckoo");
         cuckoo_history(ctx, 260);
@@ -1043,6 +1053,10 @@ pub fn gen_td(ctx: &mut Ctx, n: u64) {
 
 // --------------------------------------------------------------------------------------------
 pub fn gen_c19(ctx: &mut Ctx) {
+    for w in ["bloom", "cms", "cuckoo", "qf"] {
+        ctx.case("bigtable");
+        crate::gen::structs::big_table_case(ctx, w);
+    }
     for c in 0..(2 * ctx.tier_scale.min(4)) {
         ctx.case("c19.hll.saturated");
         let bh = ctx.rand_hasher();
